@@ -680,8 +680,27 @@ def inject(rng, doc, cls):
         rs = rects_of(i)
         r = rng.choice(rs)
         x, y, w, h = (val(v) for v in r[:4])
-        mode = rng.choice(["shift", "inside", "cover"])
-        if mode == "shift":
+        mode = rng.choice(["shift", "inside", "cover", "bridge", "bridge"])
+        extra = None
+        if mode == "bridge":
+            # a long rectangle that overlaps r but whose centre is far from r's, plus a disjoint filler whose
+            # centre lies in between (an overlap test that only looks at "neighbouring" rectangles misses it)
+            far = max([val(q[1]) + val(q[3]) for q in rs] + [val(q[0]) + val(q[2]) for q in rs]) * 4 + 8
+            d = rng.choice(["right", "left", "up", "down"])
+            if d == "right" or (d == "left" and x - 6 * w < 0):
+                new = [x + w / 4 + 5 * w, y, 10 * w, h / 2]
+                extra = [x + 2 * w, far + y, w, h]
+            elif d == "left":
+                new = [x - w / 4 - 5 * w + 10 * w - 10 * w, y, 10 * w, h / 2]
+                new = [x - w / 4 - 5 * w + 0, y, 10 * w, h / 2] if x - w / 4 - 10 * w >= 0 else [x + w / 4 + 5 * w, y, 10 * w, h / 2]
+                extra = [max(x - 2 * w, w / 2), far + y, w, h]
+            elif d == "up" or y - 6 * h < 0:
+                new = [x, y + h / 4 + 5 * h, w / 2, 10 * h]
+                extra = [far + x, y + 2 * h, w, h]
+            else:
+                new = [x, y - h / 4 - 5 * h, w / 2, 10 * h] if y - h / 4 - 10 * h >= 0 else [x, y + h / 4 + 5 * h, w / 2, 10 * h]
+                extra = [far + x, max(y - 2 * h, h / 2), w, h]
+        elif mode == "shift":
             new = [x + w / 4, y + h / 4, w, h]
         elif mode == "inside":
             new = [x, y, w / 2, h / 2]
@@ -689,6 +708,8 @@ def inject(rng, doc, cls):
             new = [x, y, w * 2, h * 2] if (x - w >= 0 and y - h >= 0) else [x + w / 2, y, w, h]
         rs = list(rs)
         rs.insert(rng.randrange(0, len(rs) + 1), [F(v) for v in new])
+        if extra is not None:
+            rs.insert(rng.randrange(0, len(rs) + 1), [F(v) for v in extra])
         i["rectangles"] = rs
     elif cls == "unknown-attribute":
         k = rng.choice(names)
